@@ -70,3 +70,42 @@ func (v VerifCoalescer) Leftover() []string {
 		}
 	}
 }
+
+// VerifHoldCoalescerLock takes the mutex that serialises coalescer creation and returns the
+// function that releases it: callers racing through getCoalescer pile up behind it.
+func VerifHoldCoalescerLock(cl Client) func() {
+	r := cl.(*client)
+	r.coalescersMu.Lock()
+	return r.coalescersMu.Unlock
+}
+
+// VerifRaceGetCoalescer lets n goroutines call the real getCoalescer for a destination nobody has
+// used yet while the creation mutex is held for `hold`, then releases it and reports how many
+// DISTINCT coalescers (writer goroutines) the n calls returned, and whether they all are the one the
+// client's map now holds. Coalescers that are not in the map are closed here (Client.Close cannot
+// reach them).
+func VerifRaceGetCoalescer(cl Client, host string, port int, n int, hold func()) (distinct int, allInMap bool) {
+	r := cl.(*client)
+	r.coalescersMu.Lock()
+	got := make(chan *coalescer, n)
+	for i := 0; i < n; i++ {
+		go func() { got <- r.getCoalescer(host, port) }()
+	}
+	hold()
+	r.coalescersMu.Unlock()
+	seen := map[*coalescer]bool{}
+	for i := 0; i < n; i++ {
+		seen[<-got] = true
+	}
+	inMap := r.getCoalescer(host, port)
+	allInMap = true
+	for c := range seen {
+		if c != inMap {
+			allInMap = false
+			if c != nil {
+				c.close()
+			}
+		}
+	}
+	return len(seen), allInMap
+}
